@@ -90,6 +90,12 @@ static int loop_start(m_ctx_t *c, int max_events) {
 static uint8_t loop_stop(m_ctx_t *c) {
     c->state = M_CTX_IDLE;
     
+    /*
+     * A callback run by the flush below may deregister the last module,
+     * thus releasing the (idle) ctx: keep it alive until we are done with it.
+     */
+    m_mem_ref(c);
+    
     /* Publish loop stopped system message */
     tell_system_pubsub_msg(NULL, c, NULL, M_PS_CTX_STOPPED);
     
@@ -125,9 +131,10 @@ static uint8_t loop_stop(m_ctx_t *c) {
      * and last module's tried to call m_ctx_deregister(), it returned -EPERM.
      * Gracefully deregister it now.
      */
-    if (m_map_len(c->modules) == 0 && !(c->flags & M_CTX_PERSIST)) {
+    if (pthread_getspecific(key) == c && m_map_len(c->modules) == 0 && !(c->flags & M_CTX_PERSIST)) {
         m_ctx_deregister();
     }
+    m_mem_unref(c);
     return ret;
 }
 
